@@ -66,7 +66,7 @@ def rule_src(ctx):
     ctx.extra['physical_time_readers'] = sorted(seen)
 
 
-def roots_of(fnode, expr, extra_src=None):
+def roots_of(fnode, expr, extra_src=None, methods=None):
     """transitive roots of expr through local assignments (flow-insensitive)"""
     assigns = {}
     for s in walk_local(fnode):
@@ -91,6 +91,12 @@ def roots_of(fnode, expr, extra_src=None):
             mn = U.method_name(c)
             if mn == 'pop' or mn == 'peek':
                 out.add('QUEUE-ENTRY')
+            # a private one-expression helper of the same class is read through (its self.<attr> are this function's)
+            if methods and U.is_self_attr(c.func) and c.func.attr in methods and ('helper', c.func.attr) not in seen:
+                hb = U.body_nodoc(methods[c.func.attr].node)
+                if len(hb) == 1 and isinstance(hb[0], ast.Return) and hb[0].value is not None:
+                    seen.add(('helper', c.func.attr))
+                    visit(hb[0].value)
         src = norm(e)
         if 'current_tt._seconds' in src:
             out.add('LOGICAL')
@@ -125,12 +131,12 @@ def rule_taint(ctx):
         mod = f.module
         ul = [c for c in U.calls(f.node) if U.method_name(c) == '_update_logical_time']
         ctx.require(len(ul) == 1, 'C05.taint', f'{fq}: expected one _update_logical_time call')
-        r = roots_of(f.node, ul[0].args[0])
+        r = roots_of(f.node, ul[0].args[0], methods=(f.cls.methods if f.cls else None))
         ctx.ob('C05.taint', f'{fq}:logical-time-source', 'PHYSICAL' not in r and 'QUEUE-ENTRY' in r,
                f'logical time installed from roots {sorted(r)}; must be the popped entry only', ul[0], mod)
         rs = [c for c in U.calls(f.node) if U.method_name(c) == resched]
         ctx.require(len(rs) == 1, 'C05.taint', f'{fq}: expected one re-scheduling call')
-        r = roots_of(f.node, rs[0].args[0])
+        r = roots_of(f.node, rs[0].args[0], methods=(f.cls.methods if f.cls else None))
         ctx.ob('C05.taint', f'{fq}:reschedule-source', 'PHYSICAL' not in r and 'QUEUE-ENTRY' in r,
                f're-scheduling time has roots {sorted(r)}; must be scheduled time + delta, never now + delta', rs[0], mod)
         # delta is the __awake__ return
